@@ -187,6 +187,7 @@ inductive Move
   | intrBegin                     -- another thread: interrupt() takes the mutex, tests and sets the flag
   | intrEnd                       -- … and then writes the event descriptor
   | step (inp : PollIn) (o : Outcome)
+  | clear                         -- Server::clear() called while run() is not active
 
 def move (s : St) : Move → St
   | .act a => applyAct s none a
@@ -199,6 +200,7 @@ def move (s : St) : Move → St
   | .intrBegin => if s.interrupted then s else { s with interrupted := true, pendingEfd := s.pendingEfd + 1 }
   | .intrEnd => if s.pendingEfd = 0 then s else { s with pendingEfd := s.pendingEfd - 1, eventfd := s.eventfd + 1 }
   | .step inp o => (step s inp o).1
+  | .clear => if s.pc = .idle then clearAll s else s
 
 /-- the callbacks a move performs -/
 def events (s : St) : Move → List Ev
@@ -247,6 +249,36 @@ theorem inv_move (s : St) (m : Move) (h : Inv s) : Inv (move s m) := by
     · exact ⟨ht.same ⟨rfl, rfl, fun _ h => h⟩, ⟨hu.auto1, hu.auto2, hu.liveUsed, hu.gone, hu.disj⟩,
         ⟨hs.selSub, hs.kind, hs.hasCb, hs.closing, hs.ncLive, hs.noFault, hs.ncBig⟩⟩
   case step inp o => exact ⟨step_invT s inp o ht, step_invU s inp o hu, step_invS s inp o ht hu hs⟩
+  case clear =>
+    split
+    · refine ⟨⟨?_, ?_, ?_, ⟨0, ?_⟩, ?_, ?_⟩, ⟨hu.auto1, hu.auto2, ?_, ?_, ?_⟩, ⟨?_, ?_, ?_, ?_, ?_, hs.noFault, ?_⟩⟩
+      · simp [clearAll, SortedQ]
+      · intro i t h; simp [clearAll] at h
+      · intro i _; simp [clearAll, entsOf]
+      · simp [clearAll]
+      · intro i t h; simp [clearAll] at h
+      · intro i t h; simp [clearAll] at h
+      · intro i h; simp [clearAll, Live] at h
+      · intro i h
+        refine ⟨?_, by simp [clearAll, Live]⟩
+        simp only [clearAll, Bool.or_eq_true] at h
+        rcases h with h | h
+        · exact (hu.gone i h).1
+        · apply hu.liveUsed i
+          simp only [liveB, Bool.or_eq_true, Option.isSome_iff_ne_none] at h
+          rcases h with ((h | h) | h) | h
+          · exact Or.inl h
+          · exact Or.inr (Or.inl h)
+          · exact Or.inr (Or.inr (Or.inl h))
+          · exact Or.inr (Or.inr (Or.inr h))
+      · intro i; simp [clearAll]
+      · intro i fl h; simp [clearAll] at h
+      · intro i reg h; simp [clearAll, lookup] at h
+      · intro i c h; simp [clearAll] at h
+      · intro i h; simp [clearAll] at h
+      · intro i h; cases h
+      · intro i h; cases h
+    · exact ⟨ht, hu, hs⟩
 
 theorem inv_runMoves (s : St) (ms : List Move) (h : Inv s) : Inv (runMoves s ms) := by
   induction ms generalizing s with
